@@ -1,19 +1,19 @@
 -------------------------- MODULE PrecompileEqTrace --------------------------
 EXTENDS PrecompileEq
 
-VARIABLES l, viol, nboth, nq
-tvars == <<picked, l, viol, nboth, nq>>
+VARIABLES l, viol, nboth, nq, nwalk, nmulti
+tvars == <<picked, l, viol, nboth, nq, nwalk, nmulti>>
 Trace == ndJsonDeserialize("trace.ndjson")
 Sig(kind, class, e) == [prop |-> "C16", kind |-> kind, class |-> class, scn |-> e.scn, line |-> l]
 
-TraceInit == picked = None /\ l = 1 /\ viol = {} /\ nboth = 0 /\ nq = 0
+TraceInit == picked = None /\ l = 1 /\ viol = {} /\ nboth = 0 /\ nq = 0 /\ nwalk = 0 /\ nmulti = 0
 TraceNext ==
     /\ l <= Len(Trace)
     /\ UNCHANGED picked
     /\ LET e == Trace[l] IN
        /\ l' = l + 1
        /\ IF e.ev = "case"
-          THEN /\ nq' = nq
+          THEN /\ UNCHANGED <<nq, nwalk, nmulti>>
                /\ nboth' = nboth + (IF e.native.ok /\ e.precompile.ok THEN 1 ELSE 0)
                /\ viol' = viol \cup
                     (IF e.native.ok # e.precompile.ok
@@ -22,10 +22,20 @@ TraceNext ==
                           THEN LET d == DiffFields(e.native.post, e.precompile.post) IN
                                IF d = {} THEN {} ELSE {Sig("effect-differs:" \o FirstField(d), CaseClass(e.case), e)}
                           ELSE {})
-          ELSE /\ nboth' = nboth
+          ELSE IF e.ev = "walk"
+          THEN \* P for a paginated read-only method: the walk that follows the precompile's own continuation
+               \* is, page by page (items, continuation key, total, failure), the walk of the native querier
+               /\ UNCHANGED <<nboth, nq>>
+               /\ nwalk' = nwalk + 1
+               /\ nmulti' = nmulti + (IF Len(e.native) > 1 THEN 1 ELSE 0)
+               /\ viol' = viol \cup
+                    (IF e.native = e.precompile THEN {}
+                     ELSE LET d == WalkDiff(e.native, e.precompile) IN
+                          {Sig("walk-differs:" \o e.walk.q \o ":" \o d.kind, WalkClass(e.walk, d), e)})
+          ELSE /\ UNCHANGED <<nboth, nwalk, nmulti>>
                /\ nq' = nq + Cardinality(DOMAIN e.q)
                /\ viol' = viol \cup {Sig("query-differs:" \o k, "state=" \o e.state, e) : k \in {x \in DOMAIN e.q : e.q[x].native # e.q[x].precompile}}
 TraceSpec == TraceInit /\ [][TraceNext]_tvars
 Report == l <= Len(Trace) \/
-          PrintT(<<"RESULT", ToJson([consumed |-> l - 1, scenarios |-> l - 1, both_ok |-> nboth, queries |-> nq, viol |-> viol, div |-> {}])>>)
+          PrintT(<<"RESULT", ToJson([consumed |-> l - 1, scenarios |-> l - 1, both_ok |-> nboth, queries |-> nq, walks |-> nwalk, walks_multi |-> nmulti, viol |-> viol, div |-> {}])>>)
 =============================================================================
